@@ -214,7 +214,7 @@ def F20(env):
 
 def F23(env):
   mujoco, mjx, jax, jp, lib, gx = env
-  print('== F23 (minor) C skips collisions between two dof-less bodies (world geom vs mocap-body geom); MJX emits the contact')
+  print('== F23 C skips collisions between two dof-less bodies (world geom vs mocap-body geom); MJX emits the contact; its rows have R=mjMINVAL (D=1e15) and can stall the MJX solver')
   xml = ('<mujoco><worldbody><geom type="plane" size="1 1 .1"/><body mocap="true" pos="0 0 0.05"><geom type="capsule" size=".06 .1" euler="90 0 0"/></body>'
          '<body pos="1 0 1"><joint type="hinge"/><geom size=".1"/></body></worldbody></mujoco>')
   c = gx.build(lib, xml)
@@ -224,6 +224,41 @@ def F23(env):
   cx = dx._impl.contact
   print('   C engine ncon=%d ; MJX active contacts=%d dist=%s' % (int(td.ncon), int(np.sum(np.asarray(cx.dist) < np.asarray(cx.includemargin))),
                                                               np.asarray(cx.dist)))
+
+
+def F29(env):
+  mujoco, mjx, jax, jp, lib, gx = env
+  from checks import c43
+  print('== F29 spatial tendon with armature: qfrc_bias term armature*J^T*(Jdot v) of MJX differs from the C engine and from finite differences')
+  xml = ('<mujoco><option gravity="0 0 0"/><worldbody><site name="w" pos="-0.4 -0.3 -0.4"/><body pos="0 0 0.1"><joint type="free"/>'
+         '<geom size=".05" mass="1.7"/><body pos=".12 .1 -.23"><joint type="ball"/><geom type="capsule" size=".05 .1" mass="3"/>'
+         '<site name="s" pos=".07 .19 -.07"/></body></body></worldbody>'
+         '<tendon><spatial armature="0.08"><site site="s"/><site site="w"/></spatial></tendon></mujoco>')
+  c = gx.build(lib, xml)
+  tm = c.tm
+  rng = np.random.RandomState(3)
+  qvel = rng.uniform(-1, 1, tm.nv)
+  d = lib.make_data(tm)
+  d.qvel[:] = qvel
+  lib.mj_forward(tm, d)
+  dx = jax.jit(mjx.forward)(c.mx, c.dx0.replace(qvel=jp.asarray(qvel)))
+  tm0 = lib.copy_model(tm)
+  tm0.tendon_armature[:] = 0
+  d0 = lib.make_data(tm0)
+  d0.qvel[:] = qvel
+  lib.mj_forward(tm0, d0)
+  def ten_j(q):
+    dd = lib.make_data(tm)
+    dd.qpos[:] = q
+    lib.mj_forward(tm, dd)
+    return c43.c_dense(lib, tm, dd, 'ten_J')[0].copy()
+  qp, qm = np.array(d.qpos), np.array(d.qpos)
+  lib.mj_integratePos(tm, qp, qvel, 1e-6)
+  lib.mj_integratePos(tm, qm, qvel, -1e-6)
+  jdv = ((ten_j(qp) - ten_j(qm)) / 2e-6) @ qvel
+  print('   C engine  :', np.array(d.qfrc_bias) - np.array(d0.qfrc_bias))
+  print('   MJX       :', np.asarray(dx.qfrc_bias) - np.array(d0.qfrc_bias))
+  print('   reference :', 0.08 * ten_j(np.array(d.qpos)) * jdv, '(armature * J^T * FD(Jdot v))')
 
 
 def F25(env):
@@ -241,7 +276,7 @@ def F25(env):
   print('   round trip:', back.ten_J)
 
 
-ALL = [F1, F2, F3, F4, F5, F9, F10, F11, F12, F13, F14, F15, F16, F17, F18, F19, F20, F23, F25]
+ALL = [F1, F2, F3, F4, F5, F9, F10, F11, F12, F13, F14, F15, F16, F17, F18, F19, F20, F23, F25, F29]
 
 if __name__ == '__main__':
   env = _setup()
